@@ -184,6 +184,11 @@ class Facts:
             return [('truth', tm.term(x, scope), pol)]
         if x['k'] == 'Macro' and 'matches' in x['mac']:
             mm = x['mac']['matches']
+            if mm.get('guard') is not None:
+                # matches!(x, P if G): P and G when true; not decomposable when false
+                if pol:
+                    return [self.pat_atom(mm['pat'], mm['expr'], True, scope, fw), ('cond', es(mm['guard']), True)]
+                return [('truth', tm.term(x, scope), False)]
             return [self.pat_atom(mm['pat'], mm['expr'], pol, scope, fw)]
         return [('cond', es(x), pol)]
 
